@@ -136,7 +136,17 @@ def _check_file(path):
             worst = err
         # the value is a binary double, not a decimal literal: one binary ulp of slack
         if err > 1 + Fraction(math.ulp(v)) / unit:
-            kind = 'deviation-above-4-units' if err > 4 else 'deviation-1-to-4-units'
+            # known finding (inexact digit generation by repeated multiplication / division): on the pinned tree deviations of 1..4 units occur
+            # only for decimal exponents <= -20 or >= 63 (profiled over the quick and the thorough value sets); the class is limited to
+            # exponents <= -20 or >= 60, a deviation of that size anywhere else is an ordinary violation
+            if err > 4:
+                kind = 'deviation-above-4-units'
+            elif e <= -20 or e >= 60:
+                kind = 'deviation-1-to-4-units/decimal-exponent-outside-minus19-to-59'
+            else:
+                kind = 'deviation-1-to-4-units'
+            if os.environ.get('C16_PROFILE'):
+                kind += '/e%+04d/p%02d' % (e, prec)
             bad.append(('c16/builtin-formatter/' + kind, 'SCPI_dtostre(%r, prec %d) = [%s]: off by %.3f units of the last requested digit' % (v, prec, text, _flt(err))))
         elif len(samples) < 2 and prec == 15:
             samples.append('SCPI_dtostre(%r, prec 15) = %s (%.3f units off)' % (v, text, _flt(err)))
